@@ -1,7 +1,7 @@
 """C18 — a flattened manifest faithfully summarises the history."""
 import random, json
 from . import _scn
-from .. import gen, oracles as O, rt, largefiles
+from .. import gen, oracles as O, rt, largefiles, mutate
 
 
 def build(seed):
@@ -12,9 +12,17 @@ def build(seed):
     ops = []
     t = 0
     n = rnd.randint(1, 5)
+    # histories with their own ignore patterns, with matching files in the tree
+    pats = rnd.sample(["*.tmp", "*.bak", "keep.bak", "tmp", "data.*", "*.mov", "d?e.txt"], rnd.randint(1, 2)) if rnd.random() < 0.4 else []
+    if pats and rnd.random() < 0.6:
+        fs.files.setdefault("data.tmp", "scratch")
+        fs.files.setdefault("keep.bak", "backup")
+        tree = gen.tree_dict(fs)
     for i in range(n):
         t += 1
         op = {"op": "create", "at": "", "h": gen.fmt_subset(rnd, (1, 3)), "now": "2026-03-01 12:00:%02d" % t}
+        if pats and (i == 0 or rnd.random() < 0.3):
+            op["i"] = pats if i == 0 else [rnd.choice(["*.bak", "c.bin", "a"])]
         files = sorted(fs.files)
         if i > 0 and rnd.random() < 0.3 and files:
             op["sf"] = rnd.sample(files, min(len(files), rnd.randint(1, 2)))
@@ -34,7 +42,8 @@ def build(seed):
                 ops.append({"op": "write", "path": p, "data": "late " + p})
     ops.append({"op": "flatten", "at": ""})
     ops.append({"op": "verifypl", "at": ""})
-    files = sorted(fs.files)
+    allpats = [x for o in ops for x in o.get("i", [])]
+    files = [p for p in sorted(fs.files) if not mutate.hidden(p, allpats)]  # an ignored file may change freely
     if files and rnd.random() < 0.7:
         p = rnd.choice(files)
         ops.append({"op": "write", "path": p, "data": "ALTERED AFTER FLATTEN"})
